@@ -753,6 +753,8 @@ def bound_cases(ctx, rnd, n, extra_calls):
                 "dydx": "bdydx%s %s" % (dsuffix, X), "d2ydx2": "bd2y%s %s" % (dsuffix, X)}[meth]
         tol = 1e-9 * (1 + abs(val))
         if meth == "y2x":
+            scale = 1.0 + abs(arg) + (abs(a) if a is not None else 0.0) + (abs(b) if b is not None else 0.0)
+            near = any(e is not None and arg != e and abs(arg - e) < 1e-9 * scale for e in (a, b))
             # the inverse is ill-conditioned at the end points (asin / sqrt): compare after mapping back
             fwd = "bx2y%s (%s)" % (suffix, expr)
             yc = arg if a is None or arg >= a else a
@@ -760,6 +762,11 @@ def bound_cases(ctx, rnd, n, extra_calls):
             cases.append((cid + "_back", stmt("bx2y%s %s" % (suffix, Rq(val)), yc, 1e-9 * (1 + abs(yc))), tac,
                           {"bound": [a, b], "method": "get_x2y(get_y2x(y))", "arg": arg, "impl": val}))
             tol = 2e-6 * (1 + abs(val))
+            if near:
+                # within 1e-9 of an end point but not on it: the clamp / arcsine branch cannot be decided by
+                # interval arithmetic at 90 bits; the mapped-back goal above (no branch) still ties the value
+                ctx.count("bound:%s:y2x_direct_goal_skipped_near_endpoint" % kind)
+                return
         cases.append((cid, stmt(expr, val, tol), tac, {"bound": [a, b], "method": "get_" + meth, "arg": arg, "impl": val}))
         ctx.count("bound:%s:%s" % (kind, meth))
 
@@ -858,9 +865,23 @@ def run(ctx):
 
     def register(cid, stream, ex, fixed):
         nonlocal trig, bcalls
-        st, _ = hist_stmt(ex, stream)
-        cases.append((cid, st, "vm_compute; reflexivity"))
-        meta[cid] = (stream, ex)
+        known0 = KNOWN_STREAM.get(stream)
+        if known0 is not None:
+            reproduces = any(v["inv"] in known0[2] for v in ex.viol)
+            if (fixed and not reproduces) or (not fixed and not still_fails.get(stream)):
+                # the known finding no longer reproduces on this tree: the model's transcription of that
+                # pattern is outdated, so its correspondence cases are skipped (the KNOWN-FINDING line is gone);
+                # invariant violations on the remaining variants are still reported below, as new
+                ctx.count("stream:%s:skipped_no_longer_reproduces" % stream)
+                ctx.notes.append("known finding %s does not reproduce on %s: update model / KNOWN_FINDINGS.json" % (stream, cid))
+            else:
+                st, _ = hist_stmt(ex, stream)
+                cases.append((cid, st, "vm_compute; reflexivity"))
+                meta[cid] = (stream, ex)
+        else:
+            st, _ = hist_stmt(ex, stream)
+            cases.append((cid, st, "vm_compute; reflexivity"))
+            meta[cid] = (stream, ex)
         ctx.evaluations += len(ex.steps)
         ctx.count("stream:" + stream + (":fixed_reproducer" if fixed else ""))
         ctx.count("len:%03d-%03d" % (len(ex.steps) // 20 * 20, len(ex.steps) // 20 * 20 + 19))
